@@ -7,6 +7,18 @@ LEVEL_NOTE = ("float64 read as exact reals (no NaN/Inf/rounding), integers mathe
               "every remaining assumption is listed in the evidence file's 'assumptions'.")
 
 claimed = {
+ "C02": dict(
+   text="Deductive proof per combinator that the real Evaluate/constructor code denotes the named operation, for all parameters and points: blend functions (RoundMin, ChamferMin, ExpMin, PolyMin/PolyMax) never remove material, are symmetric and obey the k/4 fillet bound; M22/M33/M44.Inverse are two-sided inverses; rotation constructors are rigid. Scope grows with the contract file; sentences not under contract are listed in the evidence as not_decided.",
+   design_ref="8.2",
+   technique="contract-based deductive verification: per-path VCs from go/ssa symbolic execution with abstract (uninterpreted) operands, discharged by SMT (QF_NRA + axiomatised exp/log/trig)"),
+ "C10": dict(
+   text="Frame contract 'assigns nothing' proved for every Evaluate/BoundingBox method of every type implementing SDF2/SDF3 (found mechanically from go/types), transitively through all module callees and function-valued fields, with a lock-discipline alternative (writes and all accesses to the written fields only under the receiver's mutex). Race freedom then follows from the Go memory model (reads of memory nobody writes do not race); interleavings themselves are not explored.",
+   design_ref="8.10",
+   technique="contract-based frame (assigns) and lock-discipline obligations decided by an SSA may-write analysis over the real code"),
+ "C20": dict(
+   text="Deductive proof that TriangleIByIndex.Less is the lexicographic order (hence a strict weak order, total on distinct triples, which sort.Sort and Equals need), that TriangleI.Canonical returns the rotation with the minimum first, and that rotations canonicalise identically; the global Bowyer-Watson correctness sentence is not claimed (not_decided).",
+   design_ref="8.20",
+   technique="contract-based deductive verification: VCs over symbolic slices (Ackermannised selects) and integers from go/ssa, discharged by SMT (LIA)"),
  "C16": dict(
    text="Deductive proof, for all boxes and points, that Box2/Box3.MinMaxDist2 of the real code equal the clamp / farthest-corner oracle, and that Interval.Overlap holds iff the intervals share a value; per-path verification conditions generated from the SSA of /repo's working tree and discharged by z3 4.8.12 / z3 5.1.0.",
    design_ref="8.16",
